@@ -190,6 +190,27 @@ def _ctx_rules(ck: Check, prog: Program, b: FuncInfo) -> None:
                    f'`{norm(vc)[:70]}` only runs under {gs}: on the other path the method is called without binding its parameters, so a call '
                    f'that a direct Python call could not bind (e.g. a missing required argument with empty params) runs the body / is reported '
                    f'as -32000 instead of -32602')
+    # PARAMS-UNMODIFIED: the client's params reach the validator exactly as received
+    pparam = b.params[1].arg
+    passed = dotted(vc.args[1]) if len(vc.args) > 1 else (dotted(kwarg(vc, 'params')) if kwarg(vc, 'params') is not None else None)
+    touched = []
+    for n in cfg.stmt_nodes():
+        if pparam in assigned_names(n) or any(d_ and d_.startswith(pparam + '[') for d_ in []):
+            touched.append((n.line, norm(n.ast)[:70]))
+        for c in calls_in(n):
+            if isinstance(c.func, ast.Attribute) and dotted(c.func.value) == pparam and c.func.attr in ('pop', 'update', 'clear', 'setdefault', 'popitem', 'remove', 'append', 'insert', 'extend'):
+                touched.append((n.line, norm(c)[:70]))
+        if isinstance(n.ast, ast.Delete) and any((dotted(getattr(t, 'value', t)) or '') == pparam for t in n.ast.targets):
+            touched.append((n.line, norm(n.ast)[:70]))
+        if isinstance(n.ast, ast.Assign) and any(isinstance(t, ast.Subscript) and dotted(t.value) == pparam for t in n.ast.targets):
+            touched.append((n.line, norm(n.ast)[:70]))
+    okp = passed == pparam and not touched
+    ck.ob('PARAMS-UNMODIFIED', f'{short(b.qualname)}: the request params reach validate_method exactly as received', okp)
+    if not okp:
+        ck.finding('PARAMS-UNMODIFIED', b.qualname, 'request params altered before binding', b.module.rel, touched[0][0] if touched else vc.lineno,
+                   f'the params handed to validate_method are `{passed}` after {touched or "a rewrite"}: members the client sent are dropped or '
+                   f'changed before binding, so a call that a direct Python call could not bind (an unknown / the context name supplied by the '
+                   f'client, an explicit null) is accepted, or a bindable one is refused')
     partials = [(n, c) for n in cfg.stmt_nodes() for c in calls_in(n) if dotted(c.func) in ('ft.partial', 'functools.partial', 'partial')]
     if len(partials) != 1:
         raise AnalysisError(f'{b.qualname}: expected one functools.partial call, found {len(partials)}')
@@ -304,6 +325,11 @@ def _bind_strict(ck: Check, prog: Program) -> None:
                 problems.append((c.lineno, f'positional arguments must be `params if isinstance(params, (list, tuple)) else ()`, found `{norm(pa) if pa is not None else "?"}`'))
             if not shape(ka, {'dict'}):
                 problems.append((c.lineno, f'named arguments must be `params if isinstance(params, dict) else {{}}`, found `{norm(ka) if ka is not None else "?"}`'))
+        # nothing else in bind() may rewrite the params (e.g. dropping null members)
+        for st in walk_own(b.node):
+            if isinstance(st, (ast.DictComp, ast.ListComp)) and par_param in {y.id for y in ast.walk(st) if isinstance(y, ast.Name)}:
+                problems.append((st.lineno, f'`{norm(st)[:70]}` rebuilds the params before binding: members can be dropped or changed (e.g. explicit null '
+                                 f'treated as absent), so the method does not receive exactly the caller\'s arguments'))
         # TypeError -> ValidationError
         from ..absint import EMPTY_ENV, Interp
         it = Interp(prog)
@@ -324,10 +350,13 @@ def _bind_strict(ck: Check, prog: Program) -> None:
         if not bind_calls[0].args or dotted(bind_calls[0].args[0]) != sv:
             problems.append((vm.node.lineno, 'the signature handed to bind() is not the filtered signature'))
     # the filtered signature is a pure function of (method, exclude): a hand-rolled cache must key on both
-    sig = bv.methods.get('signature')
-    if sig is not None:
+    for sig in [m_ for m_ in (bv.methods.get('signature'), bv.methods.get('validate_method')) if m_ is not None]:
         ck.functions.add(sig.qualname)
-        pnames = [p_.arg for p_ in sig.params[1:]]
+        pnames = [p_.arg for p_ in sig.params[1:] if p_.arg in ('method', 'exclude')]
+        local_defs = {}
+        for st in walk_own(sig.node):
+            if isinstance(st, ast.Assign) and len(st.targets) == 1 and isinstance(st.targets[0], ast.Name):
+                local_defs[st.targets[0].id] = st.value
         for x in walk_own(sig.node):
             key = None
             if isinstance(x, ast.Subscript) and dotted(x.value) and dotted(x.value).startswith('self.'):
@@ -335,13 +364,22 @@ def _bind_strict(ck: Check, prog: Program) -> None:
             elif isinstance(x, ast.Call) and isinstance(x.func, ast.Attribute) and x.func.attr in ('get', 'setdefault', 'pop') and \
                     dotted(x.func.value) and dotted(x.func.value).startswith('self.') and x.args:
                 key = x.args[0]
+            if key is not None and isinstance(key, ast.Name) and key.id in local_defs:
+                key = local_defs[key.id]
             if key is not None:
-                used = {y.id for y in ast.walk(key) if isinstance(y, ast.Name)}
+                # a parameter counts only when it is part of the key as a whole object (bare name, tuple(name), frozenset(name)):
+                # attributes of it (method.__qualname__, method.__name__) identify it only up to collisions
+                attr_bases = {id(y.value) for y in ast.walk(key) if isinstance(y, ast.Attribute)}
+                for y in ast.walk(key):     # getattr(method, '__qualname__', method) is attribute access as well
+                    if isinstance(y, ast.Call) and dotted(y.func) == 'getattr':
+                        attr_bases |= {id(a_) for a_ in y.args}
+                used = {y.id for y in ast.walk(key) if isinstance(y, ast.Name) and id(y) not in attr_bases}
                 missing = [p_ for p_ in pnames if p_ not in used]
                 if missing:
-                    problems.append((x.lineno, f'`{norm(x)[:60]}` caches the filtered signature under a key that ignores {missing}: the first '
-                                     f'exclusion set used for a function is reused for every later one, so the context parameter stops being '
-                                     f'excluded (the client can supply it) or a bindable call is refused'))
+                    problems.append((x.lineno, f'`{norm(x)[:60]}` caches the filtered signature under a key that does not contain {missing} itself: '
+                                     f'two different functions (same qualified name) or two exclusion sets share one cached signature, so '
+                                     f'parameters that do not bind are accepted (the body runs / -32000 instead of -32602), the context parameter stops '
+                                     f'being excluded, or a bindable call is refused'))
     ck.ob('BIND-STRICT', 'BaseValidator binds with Signature.bind over the filtered signature; TypeError → ValidationError', not problems)
     for line, msg in problems:
         ck.finding('BIND-STRICT', b.qualname, msg[:60], b.module.rel, line, msg)
